@@ -44,10 +44,17 @@ fn run_case(line: &str) -> String {
                 handle.insert_source(ch, move |_, _, _| {}).unwrap();
                 drop(s);
             }
+            // 5: an idle callback is queued; 6: one was queued and cancelled. Neither shortens the wait: idles run after it.
+            5 => {
+                let _ = handle.insert_idle(|_| {});
+            }
+            6 => {
+                handle.insert_idle(|_| {}).cancel();
+            }
             _ => {}
         }
     }
-    if idle >= 3 {
+    if idle == 3 || idle == 4 {
         // let the close / Closed event be processed: afterwards nothing must keep the loop awake
         for _ in 0..3 {
             event_loop.dispatch(Some(Duration::ZERO), &mut ()).unwrap();
